@@ -129,6 +129,7 @@ pub fn run(args: &[String]) -> i32 {
     };
     let stdin = std::io::stdin();
     let mut idx = 0u64;
+    let mut skipped = 0u64;
     for line in stdin.lock().lines() {
         let line = line.unwrap();
         if !line.starts_with('{') {
@@ -145,11 +146,27 @@ pub fn run(args: &[String]) -> i32 {
                 return 2;
             }
         };
+        // the paths were computed for one allocation policy; where the crate legitimately takes another free slot the
+        // later calls of the path would address other nodes: such a bundle is skipped (as in the replay harness)
+        let built = std::panic::catch_unwind(std::panic::AssertUnwindSafe(|| {
+            let mut sim: Sim<u32> = Sim::new();
+            for c in &b.path {
+                let d = sim.apply(c);
+                let want = if c.op == "new" { c.a } else if c.op == "append_value" { c.b } else { 0 };
+                if d.class != "Ok" || (want != 0 && d.new != want) {
+                    return None;
+                }
+            }
+            Some(sim)
+        }));
+        let sim = match built {
+            Ok(Some(s)) => s,
+            _ => {
+                skipped += 1;
+                continue;
+            }
+        };
         bundles += 1;
-        let mut sim: Sim<u32> = Sim::new();
-        for c in &b.path {
-            sim.apply(c);
-        }
         check(&sim, json!({"path": b.path}));
     }
     // larger arenas built by a seeded random history
@@ -180,7 +197,7 @@ pub fn run(args: &[String]) -> i32 {
         }
         check(&sim, json!({"random_history_seed": seed, "index": k, "calls": calls.len()}));
     }
-    let res = json!({"bundles": bundles, "arenas": arenas, "threads": nthreads, "thread_logs": thread_logs, "observations_per_log_total": observations,
+    let res = json!({"bundles": bundles, "policy_divergences_skipped": skipped, "arenas": arenas, "threads": nthreads, "thread_logs": thread_logs, "observations_per_log_total": observations,
         "max_nodes": max_nodes, "violations": nviol, "findings": findings, "par_iter": cfg!(feature = "it_par")});
     std::fs::write(out, serde_json::to_string_pretty(&res).unwrap()).unwrap();
     0
